@@ -73,20 +73,32 @@ class RecStream:
         return self._b.readline(*a)
 
 
+def req_path(case):
+    rt = case['routing']
+    if rt['k'] == '404':
+        base = '/zz/x' if rt.get('partial') is None else '/nf/x'
+    elif rt['k'] == '405':
+        base = '/m/t'
+    else:
+        base = '/h/a/t'
+    if case.get('path') == 'special':
+        base += c3.SPECIAL_TAIL
+    return base
+
+
 def raw_path_of(req):
     """PATH_INFO as the server hands it over (a Latin-1 str)"""
     k = req['class']
     if k == 'badpath':
         return {'utf8': '/h/a/\xff', 'latin1': '/h/a/€', 'trunc': '/h/a/\xe2\x82'}[req['bad']]
-    path = c3.request_path(req['case'])
-    return path.encode('utf8').decode('latin1')
+    return req_path(req['case']).encode('utf8').decode('latin1')
 
 
 def seen_path(req):
     """PATH_INFO as app.request sees it when the error page is rendered"""
     if req['class'] == 'badpath':
         return raw_path_of(req)
-    return c3.request_path(req['case'])
+    return req_path(req['case'])
 
 
 def url_repr(req):
@@ -146,8 +158,6 @@ def build_app(case, rec_box):
                 rq = app.request
                 return '%s %s %s %s' % (rq.method, rq.path, rq.query_string, rq.get_cookie('c'))
             if h.get('special') == 'body':
-                for m in h['muts']:
-                    pass
                 return str(len(app.request.body.read()))
             return c3.run_prog(app, h, rec_box[0])
         return f
@@ -210,7 +220,36 @@ def tb_owners(err):
     return out
 
 
+class _Shared(Exception):
+    pass
+
+
+def run_rule(case):
+    """CPython's rule for re-raising one exception instance, without any framework code"""
+    exc = _Shared()
+
+    def thrower(owner):
+        raise (exc.with_traceback(None) if case['reset'] else exc)
+
+    def catcher(owner):
+        try:
+            thrower(owner)
+        except _Shared:
+            pass
+    for i in case['ids']:
+        catcher(i)
+    owners = []
+    tb = exc.__traceback__
+    while tb is not None:
+        if tb.tb_frame.f_code.co_name == 'catcher':
+            owners.append(tb.tb_frame.f_locals['owner'])
+        tb = tb.tb_next
+    return dict(owners=owners)
+
+
 def run_impl(case):
+    if case['kind'] == 'rule':
+        return run_rule(case)
     import ombott.ombott as om
     saved = om.format_exc
     om.format_exc = lambda *a, **kw: c3.TB_TEXT
@@ -218,6 +257,11 @@ def run_impl(case):
         rec_box = [None]
         streams = []
         app = build_app(case, rec_box)
+        # DefaultConfig.errors_map is a class attribute: its HTTPError instances are shared by every
+        # application of the process; start from the state a fresh process has
+        for e in app.config.errors_map.values():
+            e.__traceback__ = None
+            e.__context__ = None
         responses = [serve_one(app, r, rec_box, streams) for r in case['reqs']]
         tbs = [tb_owners(e) for e in app.config.errors_map.values()]
         gc.collect()
@@ -264,7 +308,7 @@ def model_case(req):
         reached = not any(c3.fails(x) for x in case['before']) and not any(c3.fails(x) for x in rt['rhooks'])
         if h['special'] == 'echo':
             ck = req.get('cookie') or None
-            text = '%s %s %s %s' % (case['method'].upper(), c3.request_path(case), req.get('qs', ''), ck)
+            text = '%s %s %s %s' % (case['method'].upper(), req_path(case), req.get('qs', ''), ck)
             res = dict(k='ret', o=dict(k='str', s=text))
         else:
             cls = req['body_class']
@@ -297,6 +341,8 @@ def enc_req(req):
 
 
 def encode(case):
+    if case['kind'] == 'rule':
+        return [3, int(case['reset'])] + list(case['ids'])
     eh = list({code: (code, spec) for code, spec in case['eh']}.values())
     return ([case.get('variant', 0), int(case['peek']), len(SHARED)] + enc_list(eh, c3.enc_eh)
             + enc_list(case['reqs'], enc_req))
@@ -304,6 +350,8 @@ def encode(case):
 
 def decode(out, case):
     q = Reader(out)
+    if case['kind'] == 'rule':
+        return dict(owners=q.list(lambda z: z.int()))
     rs = q.list(lambda z: z.list(c3.dec_event))
     tbs = q.list(lambda z: z.list(lambda y: y.int()))
     alive = sorted(set(q.list(lambda z: z.int())))
@@ -318,6 +366,10 @@ def decode(out, case):
 # --------------------------------------------------------------------------
 
 def oracle(case, obs):
+    if case['kind'] == 'rule':
+        if case['reset'] and len(obs['owners']) > 1:
+            return 'with_traceback(None) before raise left %d raises in the chain' % len(obs['owners'])
+        return None
     if obs.get('hang'):
         return 'history did not terminate'
     if 'responses' not in obs:
@@ -326,7 +378,7 @@ def oracle(case, obs):
         for k, (a, b) in enumerate(zip(obs['responses'], obs['fresh'])):
             if a['escaped'] or b['escaped']:
                 return 'request %d: an exception escaped Ombott.__call__' % k
-            if c3.canon_events(a['events']) != c3.canon_events(b['events']):
+            if a['events'] != b['events']:
                 da = next((x for x, y in zip(a['events'] + [None], b['events'] + [None]) if x != y), None)
                 db = next((y for x, y in zip(a['events'] + [None], b['events'] + [None]) if x != y), None)
                 return ('request %d answered differently after this history than by a fresh application: %s vs %s'
@@ -393,6 +445,8 @@ def g_request(rng, rid):
     case['eh'] = []
     if case['routing']['k'] == 'ok':
         case['routing']['reg'] = 'ANY'
+    if case['routing']['k'] == '405':
+        case['method'] = rng.choice(['PATCH', 'OPTIONS'])
     req.update({'class': case['routing']['k'], 'case': case})
     return req
 
@@ -471,12 +525,17 @@ def corpus():
     for cls in RET_CLASSES:
         cs.append(retention_case(cls, 10))
     over = retention_case('oversize', 3)['reqs']
+    cs.append(dict(kind='rule', reset=False, ids=[1, 2, 3]))
+    cs.append(dict(kind='rule', reset=True, ids=[1, 2, 3]))
     cs.append(dict(kind='history', peek=True, eh=[], reqs=[over[0], _req(1, cookie), dict(retention_case('badchunk', 3)['reqs'][2]),
                                                            dict(over[1], id=3)]))
     return cs
 
 
 def gen(rng, n):
+    for k in (0, 1, 2, 5, 40):
+        for reset in (False, True):
+            yield dict(kind='rule', reset=reset, ids=[rng.randrange(100) for _ in range(k)])
     for i in range(n):
         yield g_history(rng)
     for cls in RET_CLASSES:
@@ -491,6 +550,8 @@ def thorough():
 
 
 def nontrivial(case, obs):
+    if case['kind'] == 'rule':
+        return len(case['ids']) > 1
     reqs = case['reqs']
     if len(reqs) < 2:
         return False
@@ -509,12 +570,16 @@ def key(case):
 
 
 def classify(case, obs):
+    if case['kind'] == 'rule':
+        return 'runtime-rule/%s/%d' % ('reset' if case['reset'] else 'accumulate', len(case['ids']))
     if case.get('retention'):
         return 'retention/%s/%d' % (case['retention'], len(case['reqs']))
     return 'history/%d/%s' % (len(case['reqs']), '+'.join(sorted({r['class'] for r in case['reqs']})))
 
 
 def shrink(case):
+    if case['kind'] == 'rule':
+        return
     reqs = case['reqs']
     for i in range(len(reqs)):
         yield dict(case, reqs=reqs[:i] + reqs[i + 1:])
